@@ -3,7 +3,9 @@
 package c14
 
 import (
+	"bytes"
 	"encoding/json"
+	"fmt"
 	"io"
 	"net/http"
 	"net/http/httptest"
@@ -34,9 +36,18 @@ func TestHTTPHedgedRace(t *testing.T) {
 			ServeUs   int    `json:"serve_us"`
 			MaxHedges int    `json:"max_hedges"`
 			Callers   int    `json:"callers"`
+			// BodyKiB: the requests carry a body of that size from a plain (non-seekable) reader; with 4 MiB the first
+			// attempt is still uploading when the hedge starts its own upload (the server answers without reading)
+			BodyKiB int `json:"body_kib"`
 		}
 		sc := scen{Via: rapid.SampledFrom([]string{"roundtripper", "request"}).Draw(t, "via"), HedgeUs: rapid.SampledFrom([]int{50, 200}).Draw(t, "hedgeUs"),
-			ServeUs: rapid.SampledFrom([]int{100, 300, 600}).Draw(t, "serveUs"), MaxHedges: rapid.IntRange(1, 2).Draw(t, "maxHedges"), Callers: rapid.IntRange(2, 4).Draw(t, "callers")}
+			ServeUs: rapid.SampledFrom([]int{100, 300, 600}).Draw(t, "serveUs"), MaxHedges: rapid.IntRange(1, 2).Draw(t, "maxHedges"), Callers: rapid.IntRange(2, 4).Draw(t, "callers"),
+			BodyKiB: rapid.SampledFrom([]int{0, 0, 64, 4096}).Draw(t, "bodyKiB")}
+		payload := bytes.Repeat([]byte("0123456789abcdef"), sc.BodyKiB*64)
+		rounds := 25
+		if sc.BodyKiB >= 1024 {
+			rounds = 4
+		}
 		var mu sync.Mutex
 		waiting := map[string][]chan struct{}{}
 		srv := httptest.NewServer(http.HandlerFunc(func(w http.ResponseWriter, r *http.Request) {
@@ -76,8 +87,11 @@ func TestHTTPHedgedRace(t *testing.T) {
 			wg.Add(1)
 			go func(c int) {
 				defer wg.Done()
-				for i := 0; i < 25; i++ {
+				for i := 0; i < rounds; i++ {
 					req, _ := http.NewRequest("GET", srv.URL, nil)
+					if sc.BodyKiB > 0 {
+						req, _ = http.NewRequest("POST", srv.URL, bytes.NewBuffer(append([]byte(nil), payload...)))
+					}
 					req.Header.Set("X-Req", string(rune('a'+c))+"-"+string(rune('0'+i%10))+string(rune('0'+i/10)))
 					var resp *http.Response
 					var err error
@@ -101,7 +115,7 @@ func TestHTTPHedgedRace(t *testing.T) {
 			harness.Inconclusive(t, "%+v: the requests had not finished after 60s", sc)
 		}
 		b, _ := json.Marshal(sc)
-		st.Case(string(b), true, "via="+sc.Via)
+		st.Case(string(b), true, "via="+sc.Via, fmt.Sprintf("body-kib=%d", sc.BodyKiB))
 		st.Sample(string(b), func() any { return sc })
 	})
 }
